@@ -87,6 +87,12 @@ class RecordPolicy(rngseam.Policy):
         self.scheduler = scheduler
         self.by_source = {}  # generator name -> set of task ids that drew from it
 
+    def on_new_generator(self, proxy):
+        super().on_new_generator(proxy)
+        s = self.scheduler
+        t = s.current_task() if s is not None else None
+        proxy.__dict__["_creator"] = t.tid if t is not None else -1
+
     def on_draw(self, source, method, info):
         s = self.scheduler
         if s is None:
@@ -94,7 +100,16 @@ class RecordPolicy(rngseam.Policy):
         t = s.current_task()
         tid = t.tid if t is not None else -1
         self.by_source.setdefault(source, []).append(tid)
-        if t is not None:
+        if t is None:
+            return
+        # A draw is a pre-emption point when more than one task can reach the generator: generators
+        # of the random module / random.Random objects (owned by a Config or process-global), numpy
+        # generators created outside the drawing task (Config.rng, anything made by the caller) and
+        # any generator already drawn from by another task.  A generator created and used inside one
+        # task (the per-shot generators) cannot be raced on, and rejection loops draw from it
+        # thousands of times.
+        creator = getattr(info, "_creator", None) if info is not None else None
+        if creator is None or creator != tid or len(set(self.by_source[source])) > 1:
             s.yield_point(("rng", source, method))
 
 
@@ -480,7 +495,10 @@ def judge_seeds(sc):
     for other in sc["others"]:
         sub2 = copy.deepcopy(subject)
         sub2["config"]["seed_sequence"] = other
-        o, _st, _l = run_world(sub2, copy.deepcopy(QUIET))
+        try:
+            o, _st, _l = run_world(sub2, copy.deepcopy(QUIET))
+        except Exception as e:  # noqa: BLE001 - e.g. the documented "too many trials" refusal for this seed
+            return {"status": "discard", "detail": "other seed raised %s" % type(e).__name__, "counters": {"discards": {type(e).__name__: 1}}}
         if spec.close(_t(o["samples"]), _t(samples)):
             return {"status": "violation", "sig": "C11/different-seeds/same-samples", "detail": "seeds %d and %d give identical %d-shot sample sequences although the most frequent outcome has share %.2f" % (s, other, len(samples), top / len(samples)), "facts": facts, "digest": log.digest()}
     return {"status": "pass", "digest": log.digest(), "counters": {"different_seed_comparisons": len(sc["others"]), "by_sim": {subject["sim"]: 1}}, "nontrivial": True, "facts": facts}
